@@ -405,13 +405,39 @@ func c14r5(c *Ctx) {
 			return false
 		}
 		bad := ""
-		for _, e := range enters {
-			c.Paths++
-			if f.CFG().ReachesWithout(nx.Expr, e.Expr, func(n ast.Node) bool {
-				return isStamp(n) || (n != ast.Node(nx.Expr) && prog.NodeIs(nx.Expr)(n) && false)
-			}) {
-				// a path from this next() to a heap entry without the stamp; ignore paths that pass another next() of the same lhs
-				if !f.CFG().ReachesWithout(nx.Expr, e.Expr, func(n ast.Node) bool {
+		if _, isLocal := prog.Unparen(lhs).(*ast.Ident); isLocal {
+			// plain local: it enters the heap where it is wrapped into a mergeReader
+			lo := prog.ObjOf(info, lhs)
+			n := 0
+			ast.Inspect(f.Decl.Body, func(x ast.Node) bool {
+				cl, ok := x.(*ast.CompositeLit)
+				if !ok || !prog.Mentions(info, cl, lo) {
+					return true
+				}
+				if t := info.TypeOf(cl); t == nil || !strings.HasSuffix(t.String(), "mergeReader") {
+					return true
+				}
+				n++
+				var stamp ast.Node
+				ast.Inspect(f.Decl.Body, func(y ast.Node) bool {
+					if isStamp(y) {
+						stamp = y
+					}
+					return true
+				})
+				c.Paths++
+				if stamp == nil || !f.CFG().Dominates(stamp, cl) {
+					bad = c.pos(cl)
+				}
+				return true
+			})
+			if n == 0 {
+				bad = "never wrapped"
+			}
+		} else {
+			for _, e := range enters {
+				c.Paths++
+				if f.CFG().ReachesWithout(nx.Expr, e.Expr, func(n ast.Node) bool {
 					if isStamp(n) {
 						return true
 					}
@@ -422,12 +448,11 @@ func c14r5(c *Ctx) {
 					}
 					return false
 				}) {
-					continue
+					bad = e.Pos()
 				}
-				bad = e.Pos()
 			}
 		}
-		c.check(bad == "", R, f.Key+": item from next() #"+itoa(ni+1)+" stamped with its file's chunk id before entering the heap", nx.Pos(), "curr.Pos.ChunkID = reader.chunkID on every path to heap.Init/Push",
+		c.check(bad == "", R, f.Key+": item from next() #"+itoa(ni+1)+" stamped with its file's chunk id before entering the heap", nx.Pos(), "Pos.ChunkID = reader.chunkID before the item is placed in the heap",
 			"an item read from a per-file hint can enter the merge heap (at "+bad+") without its Pos.ChunkID set to the file's chunk id (hint items store chunk 0): the position tie-break and the merged entry's chunk are wrong, so the merge does not keep the greatest (file, offset) position")
 	}
 	if w := c.fn(R, "store.mergeWriter.write"); w != nil {
